@@ -183,8 +183,9 @@ class CategoriesToIntegers(BaseEstimator, TransformerMixin):
                                 "Unable to find category value %r: %r "
                                 "type(v)=%r among\n%s" % (k, v, type(v), "\n".join(lv))
                             )
-                    else:
-                        p = pos[k] + vec[k][v]
+                        # unknown category skipped: no indicator for this column
+                        continue
+                    p = pos[k] + vec[k][v]
                     res[i, p] = 1.0
 
             if dfnum.shape[1] > 0:
